@@ -5,6 +5,7 @@ One observation record per instance (serialize, de-serialize, compare) and one p
 """
 from __future__ import annotations
 
+import io
 import json
 import pathlib
 import sys
@@ -35,7 +36,17 @@ def text_mutants(xml_text: str) -> List[Dict[str, str]]:
         try:
             ET.fromstring(t)
         except ET.ParseError:
-            out.append({"at": name, "text": t})
+            # is the damage only *after* the closed root element?  (a streaming reader need not look there)
+            depth, closed = 0, False
+            try:
+                for event, _ in ET.iterparse(io.StringIO(t), events=("start", "end")):
+                    depth += 1 if event == "start" else -1
+                    if depth == 0:
+                        closed = True
+                        break
+            except ET.ParseError:
+                pass
+            out.append({"at": name, "text": t, "after_root": closed})
     return out
 
 
@@ -134,7 +145,7 @@ def main() -> None:
         # mutated documents
         for c in by_model_mut.get(mi, []):
             rec = {"mi": mi, "pa": entry["pa"], "pb": entry["pb"], "mid": model.id, "fmt": c["fmt"], "kind": c["kind"], "at": c["at"], "doc": c["doc"],
-                   "sdk": sdk.ok, "outcome": {"o": "none", "v": sc.VNONE}, "detail": "", "text": ""}
+                   "sdk": sdk.ok, "outcome": {"o": "none", "v": sc.VNONE}, "detail": "", "text": "", "after_root": False}
             mut_obs.append(rec)
             if not sdk.ok:
                 continue
@@ -155,7 +166,7 @@ def main() -> None:
         if sdk.ok and first_xml is not None:
             for tm in text_mutants(first_xml):
                 rec = {"mi": mi, "pa": entry["pa"], "pb": entry["pb"], "mid": model.id, "fmt": "xmltext", "kind": "Malformed", "at": tm["at"], "doc": sc.DUMMY_JDOC,
-                       "sdk": True, "outcome": {"o": "none", "v": sc.VNONE}, "detail": ""}
+                       "sdk": True, "outcome": {"o": "none", "v": sc.VNONE}, "detail": "", "after_root": tm["after_root"]}
                 rec["outcome"], _, d = sc.outcome_of(sdk.from_str_fn(root), tm["text"], sdk, sdk.xmlization.DeserializationException)
                 rec["detail"] = d[:400]
                 rec["text"] = tm["text"][:300]
